@@ -31,8 +31,8 @@ def serial_oracle(b, q, opn, variables, hub, resp):
     data = resp.get("data")
     if isinstance(data, dict):
         got = list(data.keys())
-        exp = [k for k in keys if k in data]
-        if got != exp: pr.append(f"root fields listed as {got}, document order is {exp}")
+        # every collected root field is listed (a null one as null), in document order
+        if got != keys: pr.append(f"root fields listed as {got}, the collected root fields in document order are {keys}")
     return pr[:3]
 
 RULE = "generated MUTATION requests (several root fields, aliases, fragments at the root, nested gated resolvers, failing nullable and non-null roots) on engines built with 4-8 concurrency configurations, under first / last / random / (few gates) all schedules; oracle on the real start/finish event log: no resolver of root field j starts while anything of an earlier root field is in flight; root keys in document order; non-trivial = at least two resolvers awaited at the same time"
